@@ -217,7 +217,7 @@ class C08(Check):
     level_text = ('Every position of each generated stack is faulted once per run (fault_enumeration over positions); behaviours, '
                   'handlers, messages and histories are sampled by seed; each faulty request is followed by recovery probes.')
     level_note = 'Trusted: the outcome model (~60 lines, from the property text); the gateway monitor.'
-    required_probes = ('first-requests-of-a-process', 'typed-binding-odd-segment', 'concurrent-faulted-requests', 'handler-installed-as-type-on-application-subclass', 'tracebacklimit-set', 'debug-handler-without-frames', 'other-application-in-process', 'escaped-original-exception', 'render-error-fallback', 'handler-replaced-error', 'recovered',
+    required_probes = ('first-time-import-during-a-request', 'error-log-stream-in-a-narrow-encoding', 'first-requests-of-a-process', 'typed-binding-odd-segment', 'concurrent-faulted-requests', 'handler-installed-as-type-on-application-subclass', 'tracebacklimit-set', 'debug-handler-without-frames', 'other-application-in-process', 'escaped-original-exception', 'render-error-fallback', 'handler-replaced-error', 'recovered',
                        'nonbreaking-http', 'huge-message')
 
     def gen_config(self, rng):
@@ -228,7 +228,9 @@ class C08(Check):
         return {'mws': mws, 'ep_returns': rng.choice(['dict', 'dict', 'resp']), 'has_render': rng.random() < 0.75,
                 'handler': rng.choice(HANDLERS), 'handler_via': rng.choice(['argument', 'argument', 'class_attr', 'debug_class_attr']),
                 # the interpreter-wide traceback depth limit an operator may have set (0 = no frames recorded)
-                'tracebacklimit': rng.choice([None, None, None, None, 0, 0, 1, -1, 3])}
+                'tracebacklimit': rng.choice([None, None, None, None, 0, 0, 1, -1, 3]),
+                # the server's error log (wsgi.errors): a text stream that takes anything, or one in ASCII / strict UTF-8
+                'errors_stream': rng.choice([None, None, 'ascii', 'utf8'])}
 
     def gen_fault(self, rng, is_leaf):
         msg = rng.choice(sorted(MSGS))
@@ -288,6 +290,10 @@ class C08(Check):
                     else:
                         batch.append({'method': sch.choice(['GET', 'DELETE', 'POST']), 'path': sch.choice(['/nope', '/only-post', '/item', '/decl', '/x']),
                                       'accept': sch.choice(ACCEPTS), 'faults': {}})
+                for rq in batch:
+                    # application code that imports a module on first use, while other requests are in flight
+                    if sch.random() < 0.3:
+                        rq['imports'] = True
                 gran = sch.choice(['line', 'line', 'ins'])
                 hi = 300 if gran == 'line' else 2000
                 names = ['T%d' % i for i in range(n)]
@@ -313,7 +319,8 @@ class C08(Check):
         RT.reset(faults)
         RT.set_seq(seq)
         hdr = {'Accept': op['accept']} if op.get('accept') else {}
-        ex = call_app(app, make_environ(op['method'], op['path'], headers=hdr, body=b'b' if op['method'] == 'POST' else b''))
+        ex = call_app(app, make_environ(op['method'], op['path'], headers=hdr, body=b'b' if op['method'] == 'POST' else b'',
+                                        errors_stream=cfg.get('errors_stream')))
         return ex
 
     def extra_plans(self, tier, base_seed):
@@ -377,6 +384,8 @@ class C08(Check):
         import sys
         had = getattr(sys, 'tracebacklimit', None)
         try:
+            if cfg.get('errors_stream'):
+                res.probe('error-log-stream-in-a-narrow-encoding')
             if cfg.get('tracebacklimit') is not None:
                 sys.tracebacklimit = cfg['tracebacklimit']
                 res.probe('tracebacklimit-set')
@@ -529,8 +538,12 @@ class C08(Check):
                     f['msg'] = MSGS[f['msg']]
                 faults[name] = f
             RT.seq_faults[seq] = faults
+            if rq.get('imports'):
+                RT.seq_imports.add(seq)
+                res.probe('first-time-import-during-a-request')
             hdr = {'Accept': rq['accept']} if rq.get('accept') else {}
-            env = make_environ(rq['method'], rq['path'], headers=hdr, body=b'b' if rq['method'] == 'POST' else b'')
+            env = make_environ(rq['method'], rq['path'], headers=hdr, body=b'b' if rq['method'] == 'POST' else b'',
+                               errors_stream=cfg.get('errors_stream'))
 
             def task(i=i, seq=seq, env=env):
                 RT.set_seq(seq)
